@@ -101,8 +101,52 @@ VARIANTS = [
     ('benign-escape-reorder', A, "        elif byte in b'\\n':\n            result += b'\\\\n'\n        elif byte in b'\\r':\n            result += b'\\\\r'", "        elif byte in b'\\r':\n            result += b'\\\\r'\n        elif byte in b'\\n':\n            result += b'\\\\n'", 'silent', []),
     ('benign-flavors-rewrite', GR, "        flavors = frozenset({})\n        if BlockContext.FUNC in self:\n            flavors |= {Flavor.NONE}", "        flavors = frozenset()\n        if BlockContext.FUNC in self:\n            flavors = flavors | {Flavor.NONE}", 'silent', []),
     ('benign-stdlib-comment', S, "        ; Deal with the special case of the minimum signed integer", "        ; Deal with the special case of the minimum signed integer\n        ; (its negation is itself)", 'silent', []),
+    ('benign-rename-arith-locals', G, "                left_bubble = yield from self.eval_expr(self.r0, expr.left, keep=not self.is_safe(expr.right))\n                right = yield from self.get_expr_value(self.r1, expr.right)\n                left = yield from self.pop_value(self.r0, left_bubble)\n                yield from self.arith_op_reg_arg(type(expr), r_out, left, right)",
+     "                lhs_bubble = yield from self.eval_expr(self.r0, expr.left, keep=not self.is_safe(expr.right))\n                rhs = yield from self.get_expr_value(self.r1, expr.right)\n                lhs = yield from self.pop_value(self.r0, lhs_bubble)\n                yield from self.arith_op_reg_arg(type(expr), r_out, lhs, rhs)", 'silent', []),
+    ('benign-explicit-goto', G, "                yield from self.goto(end_else)\n                yield asm.Label(else_label)", "                yield asm.Jump(end_else)\n                yield asm.Halt()\n                yield asm.Label(else_label)", 'silent', []),
+    ('benign-guard-other-register', G, "            yield asm.Sub(self.r1, asm.State(self.fp), asm.State(self.ap))\n            yield asm.Hgeu(asm.State(self.r1), self.checkpoints.add(self.stack.static_size))",
+     "            yield asm.Sub(self.r2, asm.State(self.fp), asm.State(self.ap))\n            yield asm.Hgeu(asm.State(self.r2), self.checkpoints.add(self.stack.static_size))", 'silent', []),
+    ('benign-is-safe-rewrite', G, "        return isinstance(expr, ast.PrimitiveValue) or isinstance(expr, ast.VariableLookup)", "        return isinstance(expr, (ast.PrimitiveValue, ast.VariableLookup))", 'silent', []),
+    ('benign-coercible-rewrite', E, "        return (self.type, new_type) in {\n            ByteToInt.map,\n            StringToByteArray.map\n        }", "        pair = (self.type, new_type)\n        return pair == ByteToInt.map or pair == StringToByteArray.map", 'silent', []),
+    ('benign-mass-rename-and-reformat', '', '@mass_rename', None, 'silent', []),
     ('benign-metadata-text', G, "                yield asm.Metadata('if block')", "                yield asm.Metadata('if/else block')", 'silent', []),
 ]
+
+
+def mass_rename(root):
+    """Rename every local variable of every function in the main modules to <name>_q and re-print the modules
+    with ast.unparse (so formatting, comments and quotes change too)."""
+    import ast
+    from .canon import binding_sites, _Rename
+    files = ['hidc/codegen/generator.py', 'hidc/parser/grammar.py', 'hidc/ast/blocks.py', 'hidc/ast/expressions.py',
+             'hidc/ast/operators.py', 'hidc/ast/statements.py', 'hidc/ast/program.py', 'hidc/lexer/readers.py',
+             'hidc/lexer/__init__.py', 'hidc/codegen/asm.py', 'hidc/codegen/tracker.py', 'hidc/lexer/scanner.py',
+             'hidc/parser/rules.py', 'hidc/__main__.py']
+    for rel in files:
+        p = os.path.join(root, rel)
+        tree = ast.parse(open(p).read())
+
+        class V(ast.NodeTransformer):
+            def visit_FunctionDef(self, fn):
+                self.generic_visit(fn)
+                sites, params = binding_sites(fn)
+                names = {n for n, _, _ in sites}
+                comp = {t.id for n in ast.walk(fn) if isinstance(n, (ast.ListComp, ast.SetComp, ast.DictComp, ast.GeneratorExp))
+                        for g in n.generators for t in ast.walk(g.target) if isinstance(t, ast.Name)}
+                mapping = {n: n + '_q' for n in names - comp}
+
+                class R(_Rename):
+                    def visit_FunctionDef(s, node):
+                        return node if node is not fn else s.generic_visit(node)
+                    visit_AsyncFunctionDef = visit_FunctionDef
+
+                    def visit_Lambda(s, node):
+                        return node
+                return R(mapping).visit(fn)
+            visit_AsyncFunctionDef = visit_FunctionDef
+        new = V().visit(tree)
+        ast.fix_missing_locations(new)
+        open(p, 'w').write(ast.unparse(new) + '\n')
 
 
 def run_variant(v, repo='/repo'):
@@ -112,15 +156,18 @@ def run_variant(v, repo='/repo'):
         shutil.copytree(os.path.join(repo, 'hidc'), os.path.join(d, 'hidc'))
         if os.path.exists(os.path.join(repo, 'README.rst')):
             shutil.copy(os.path.join(repo, 'README.rst'), d)
-        p = os.path.join(d, rel)
-        s = open(p).read()
-        if s.count(old) != 1:
-            return vid, 'skipped', f'anchor occurs {s.count(old)} times'
-        open(p, 'w').write(s.replace(old, new))
-        try:
-            compile(open(p).read(), p, 'exec')
-        except SyntaxError as e:
-            return vid, 'broken-variant', str(e)
+        if isinstance(old, str) and old.startswith('@'):
+            globals()[old[1:]](d)            # whole-tree transform
+        else:
+            p = os.path.join(d, rel)
+            s = open(p).read()
+            if s.count(old) != 1:
+                return vid, 'skipped', f'anchor occurs {s.count(old)} times'
+            open(p, 'w').write(s.replace(old, new))
+            try:
+                compile(open(p).read(), p, 'exec')
+            except SyntaxError as e:
+                return vid, 'broken-variant', str(e)
         here = os.path.dirname(os.path.dirname(os.path.abspath(__file__)))
         all_props = sorted(f[:-3].upper() for f in os.listdir(os.path.join(here, 'hidverif', 'checks')) if f.startswith('c') and f.endswith('.py'))
         todo = props if expect == 'detect' else all_props
